@@ -67,27 +67,33 @@ def check_per_format(report: Report, repo: Repo, rule: str) -> None:
     it = Interp(repo, opaque=lambda f: isinstance(f, FuncV) and f.qualname == "FPFormat.quantise")
     # R1b history independence: a second format that prints the same (E4M3-SR) but differs in its
     # random-bit count / an equal-looking format object must get its *own* quantiser
-    try:
-        fa = mkformat(it, "stochastic", SR)
-        fb = mkformat(it, "stochastic", SR + 1)
-        for meth in ("quantise_fwd", "quantise_bwd"):
-            used = []
-            for fo in (fa, fb):
-                it.events = []
-                it.call_function(it.class_attr(fo.cls, meth), [fo, P("x", None)], {})
-                ag = [e for e in it.events if e.kind == "autograd"]
-                if len(ag) != 1:
-                    used.append(None)
-                    continue
-                pas = "forward" if meth == "quantise_fwd" else "backward"
-                r = it.call_function(it.class_attr(ag[0]["cls"], pas), [Obj("ctx", term=T("param", ("ctx",))), P("t", None)], {})
-                rt = TM.term_of(r)
-                used.append(dict(rt.args[1]).get("self") if isinstance(rt, T) and rt.op == "call" else None)
-            ok = used == [TM.term_of(fa), TM.term_of(fb)]
-            report.add(rule, f"{FM}::FPFormat.{meth}::per-format", ok, f"{meth} on a second format object (same exponent/mantissa/rounding, other srbits) after a first one must quantise with the second format (no cross-call caching keyed by the printed name)", fmt(used), fmt([TM.term_of(fa), TM.term_of(fb)]))
-    except Unsupported as ex:
-        report.add(rule, f"{FM}::FPFormat.quantise_fwd::per-format", None, f"outside fragment: {ex}")
-
+    pairs = [
+        ("same exponent/mantissa/rounding, other srbits", ("stochastic", SR), ("stochastic", SR + 1)),
+        ("same exponent/mantissa, stochastic first then nearest", ("stochastic", SR), ("nearest", 0)),
+        ("same exponent/mantissa, nearest first then stochastic", ("nearest", 0), ("stochastic", SR)),
+    ]
+    for plabel, a_, b_ in pairs:
+        it = Interp(repo, opaque=lambda f: isinstance(f, FuncV) and f.qualname == "FPFormat.quantise")  # a fresh process state
+        try:
+            fa = mkformat(it, *a_)
+            fb = mkformat(it, *b_)
+            for meth in ("quantise_fwd", "quantise_bwd"):
+                used = []
+                for fo in (fa, fb):
+                    it.events = []
+                    it.call_function(it.class_attr(fo.cls, meth), [fo, P("x", None)], {})
+                    ag = [e for e in it.events if e.kind == "autograd"]
+                    if len(ag) != 1:
+                        used.append(None)
+                        continue
+                    pas = "forward" if meth == "quantise_fwd" else "backward"
+                    r = it.call_function(it.class_attr(ag[0]["cls"], pas), [Obj("ctx", term=T("param", ("ctx",))), P("t", None)], {})
+                    rt = TM.term_of(r)
+                    used.append(dict(rt.args[1]).get("self") if isinstance(rt, T) and rt.op == "call" else None)
+                ok = used == [TM.term_of(fa), TM.term_of(fb)]
+                report.add(rule, f"{FM}::FPFormat.{meth}::per-format", ok, f"{meth} on a second format object ({plabel}) after a first one must quantise with the second format (no cross-call caching keyed by part of the format)", fmt(used), fmt([TM.term_of(fa), TM.term_of(fb)]))
+        except Unsupported as ex:
+            report.add(rule, f"{FM}::FPFormat.quantise_fwd::per-format", None, f"outside fragment: {ex}")
 
 
 def check(report: Report, repo: Repo) -> None:
@@ -178,6 +184,18 @@ def check(report: Report, repo: Repo) -> None:
             gt, et = TM.normalize(TM.term_of(got)), TM.normalize(TM.term_of(exp))
             r = TM.term_equal(gt, et)
             report.add("R2-wrappers", cons, r, f"{sname}: wrapper must equal quantise_fwd(tensor operands) -> {kn} -> quantise_bwd; " + (TM.first_diff(gt, et) if r is not True else ""), fmt(gt), fmt(et))
+        # one tensor passed in every operand position (self-attention on a single tensor, a square layer
+        # applied to its own weight): each operand is still quantised on its own (independent rounding
+        # draws and autograd nodes) -- counted as applications of quantise_fwd
+        same = P("shared", None)
+        try:
+            it2.events = []
+            it2.call_function(w, [same, same, same if q3 else c, ft, bt], {})
+            nq = len([e for e in it2.events if e.kind == "callv" and isinstance(TM.term_of(e["callee"]), T) and TM.term_of(e["callee"]).op == "attr" and TM.term_of(e["callee"]).args[1] == "quantise_fwd"])
+            want = 3 if q3 else 2
+            report.add("R2-wrappers", f"{cons}::aliased-operands", nq == want, f"the same tensor given as {want} operands is forward-quantised {want} times (once per operand)", nq, want)
+        except Unsupported as ex:
+            report.add("R2-wrappers", f"{cons}::aliased-operands", None, f"outside fragment: {ex}")
 
     # ------------------------------------------------------------ R3 lossless transport
     read = fields_read_by_quantise(repo)
